@@ -202,6 +202,17 @@ func (c *Checker) cover(o Oblig) {
 		res.Result = "violated"
 		res.Output = "vacuous: the precondition / case condition is unsatisfiable"
 	default:
+		// no model and no refutation of the whole path condition. The proving pipeline, however, first works on the
+		// instantiated, quantifier-free weakening of the hypotheses: if THAT is already contradictory, every
+		// obligation under this path condition is discharged vacuously — refuted after all.
+		if g := withInstHints(o.PC, true); g != o.PC {
+			if rg := solve2(SMTQuery([]*Term{g}, nil), 3*time.Second); rg.Result == "unsat" {
+				res.Result = "violated"
+				res.Backend = rg.Backend
+				res.Output = "vacuous: the instantiated path condition is unsatisfiable"
+				break
+			}
+		}
 		// the vacuity guard fails only on a REFUTED path condition; with quantified invariants in the path
 		// condition the solvers may not be able to exhibit a model — recorded, not an alarm
 		res.Result = "discharged"
